@@ -5,6 +5,7 @@ from .engine import Recorder, finish, VERIF
 from .facts import FactBase
 
 PROPS = ["C%02d" % i for i in range(1, 15)]
+RULE_SECONDS = int(os.environ.get("HV_RULE_SECONDS", "600"))  # a rule is slower than 3 s on no tree seen so far
 
 
 class Ctx:
@@ -53,11 +54,26 @@ def run_property(prop, tier):
         recorders.append(r)
         return finish(prop, tier, recorders, t0, mod.LEVEL, mod.EXPLANATION, mod.ASSUMPTIONS, mod.TRUSTED, "./hv check %s --tier %s" % (prop, tier))
     ctx = Ctx(fdir, tier)
+    import signal
+
+    class RuleTimeout(Exception):
+        pass
+
+    def _alarm(signum, frame):
+        raise RuleTimeout("no result after %d s (path or language enumeration does not finish on this tree)" % RULE_SECONDS)
+
     for rule_id, doc, fn in mod.RULES:
         r = Recorder(prop, rule_id, doc)
         try:
-            fn(ctx, r)
-        except Exception as e:  # fail closed: a rule that cannot run is not a pass
+            if hasattr(signal, "SIGALRM"):
+                signal.signal(signal.SIGALRM, _alarm)
+                signal.alarm(RULE_SECONDS)
+            try:
+                fn(ctx, r)
+            finally:
+                if hasattr(signal, "SIGALRM"):
+                    signal.alarm(0)
+        except Exception as e:  # fail closed: a rule that cannot run (or does not finish) is not a pass
             tb = traceback.format_exc()
             r.fail("internal", "rule could not be evaluated on this tree (treated as anchor lost): %s: %s" % (type(e).__name__, e), detail=tb[-1500:], kind="anchor-lost")
         recorders.append(r)
